@@ -62,6 +62,15 @@ func cmdAdsMesh(args []string) {
 		res.count("churn_closes")
 		res.Counters["churn_closes"] = n
 	}
+	// a relay that reaches the owner through a real UDP dialer, with slowed writers
+	if viol, inconcl := runAdsUDPRelay(col, *seed); inconcl != "" {
+		res.Inconclusive = append(res.Inconclusive, inconcl)
+	} else {
+		for _, v := range viol {
+			res.violate(v.Sig, v.What, v.Replay)
+		}
+		res.count("udp_relay_runs")
+	}
 	finals := make([]*adsFinal, *scenarios)
 	errs := make([]string, *scenarios)
 	sem := make(chan struct{}, *par)
